@@ -3,7 +3,11 @@
      world     = product|product...      product = name:version:dir:act+act...
      act       = S,opt,name,just | P,append,var,value,delim | E,var,value | U,var | A,name,value | N
      decisions = v,v,!,...               (! = not found)
-   answer: ok TAB env TAB aliases TAB decisions-left | fail TAB decisions-left | raise | err TAB kind *)
+   answer: ok TAB env TAB aliases TAB decisions-left | fail TAB decisions-left | raise | err TAB kind
+   line: wf TAB world TAB order          order = names joined by ',' (dependencies first)
+   answer: 1 | 0                          the checker wf2_check of coq/Model/SetupWf.v (hypotheses WF / WF2)
+   line: wff TAB world TAB order         answer: one 0/1 per field, in the order of wf2_fields
+     (actions vars rank var_apart elem_apart versions set_once keys words) *)
 let dec_env (s : Stdlib.String.t) =
   dec_list ';' (fun kv ->
     match Stdlib.String.index_opt kv '=' with
@@ -52,6 +56,14 @@ let handle (f : Stdlib.String.t array) : Stdlib.String.t =
      | RRaise (_, _) -> "raise"
      | RFuel -> "err\tOutOfFuel"
      | RBad -> "err\tBadDecisions")
+  | "wf" ->
+    let w = Stdlib.List.map dec_product (split_sep '|' f.(1)) in
+    let order = dec_strlist ',' (if Stdlib.Array.length f > 2 then f.(2) else "") in
+    field_of_bool (wf2_check w order)
+  | "wff" ->
+    let w = Stdlib.List.map dec_product (split_sep '|' f.(1)) in
+    let order = dec_strlist ',' (if Stdlib.Array.length f > 2 then f.(2) else "") in
+    Stdlib.String.concat "" (Stdlib.List.map field_of_bool (wf2_fields w order))
   | _ -> failwith "unknown op"
 
 let () = main_loop handle
